@@ -35,6 +35,18 @@ def extras(ctx):
                 ex.recv("1", body=[(112, "T%d" % k)])
             else:
                 ex.admin("testreq", "Q%d" % k)
+        if i % 3 == 0:
+            # the counterparty disappears: a send fails on the socket, the session reconnects and sends again
+            ex.peerclose()
+            if rng.random() < 0.5:
+                ex.send(nid); nid += 1
+            else:
+                ex.batch([nid, nid + 1]); nid += 2
+            ex.reconnect()
+            ex.peer_seq += 0
+            ex.logon_exchange()
+            ex.send(nid); nid += 1
+            ex.batch([nid, nid + 1]); nid += 2
         out.append(ex)
     return out
 
